@@ -73,6 +73,9 @@ type (
 )
 
 func nowUnix() int64 {
+	if v, ok := verifNow(); ok {
+		return v
+	}
 	return time.Now().Unix()
 }
 
@@ -108,18 +111,24 @@ func NewHTTPStoreCache(key []byte, store store.Store) *httpCache {
 
 // Get get http cache
 func (hc *httpCache) Get() (status Status, response *HTTPResponse) {
+	verifPoint("get.lock", hc)
 	hc.mu.Lock()
 	status, done, response := hc.get()
+	verifPoint("get.done", hc, int(status), done != nil)
 	hc.mu.Unlock()
 	// 如果done不为空，表示需要等待确认当前请求状态
 	if done != nil {
 		// TODO 后续再考虑是否需要添加timeout（proxy部分有超时，因此暂时可不添加)
+		verifPoint("get.recv", hc)
 		<-done
+		verifPoint("get.woken", hc)
 		// 完成后重新获取当前状态与响应
 		// 此时状态只可能是hit for pass 或者 hit
 		// 而此两种状态的数据缓存均不会立即失效，因此可以从hc中获取
 		status = hc.status
+		verifPoint("get.read2", hc, int(status))
 		response = hc.response
+		verifPoint("get.resumed", hc, int(status), response)
 	}
 	return
 }
@@ -255,6 +264,7 @@ func (hc *httpCache) get() (status Status, done chan struct{}, data *HTTPRespons
 
 // HitForPass set the http cache hit for pass
 func (hc *httpCache) HitForPass(ttl int) {
+	verifPoint("hfp.lock", hc)
 	hc.mu.Lock()
 	defer hc.mu.Unlock()
 	if ttl <= 0 {
@@ -264,10 +274,15 @@ func (hc *httpCache) HitForPass(ttl int) {
 	hc.status = StatusHitForPass
 	list := hc.chanList
 	hc.chanList = nil
+	verifPoint("hfp.set", hc, ttl, len(list))
 	for _, ch := range list {
+		verifPoint("hfp.send", hc)
 		ch <- struct{}{}
+		verifPoint("hfp.sent", hc)
 	}
+	verifPoint("hfp.save", hc)
 	err := hc.saveToStore()
+	verifPoint("hfp.saved", hc, err)
 	if err != nil {
 		log.Default().Error("save cache to store fail",
 			zap.String("category", "hitForPass"),
@@ -279,6 +294,7 @@ func (hc *httpCache) HitForPass(ttl int) {
 
 // Cacheable set http cache cacheable and compress it
 func (hc *httpCache) Cacheable(resp *HTTPResponse, ttl int) {
+	verifPoint("cab.lock", hc)
 	hc.mu.Lock()
 	defer hc.mu.Unlock()
 	// 如果是可缓存数据，则选择默认的best compression
@@ -290,10 +306,15 @@ func (hc *httpCache) Cacheable(resp *HTTPResponse, ttl int) {
 	hc.response = resp
 	list := hc.chanList
 	hc.chanList = nil
+	verifPoint("cab.set", hc, ttl, len(list))
 	for _, ch := range list {
+		verifPoint("cab.send", hc)
 		ch <- struct{}{}
+		verifPoint("cab.sent", hc)
 	}
+	verifPoint("cab.save", hc)
 	err := hc.saveToStore()
+	verifPoint("cab.saved", hc, err)
 	if err != nil {
 		log.Default().Error("save cache to store fail",
 			zap.String("category", "cacheable"),
@@ -305,8 +326,10 @@ func (hc *httpCache) Cacheable(resp *HTTPResponse, ttl int) {
 
 // Age get http cache's age
 func (hc *httpCache) Age() int {
+	verifPoint("age.lock", hc)
 	hc.mu.RLock()
 	defer hc.mu.RUnlock()
+	verifPoint("age", hc)
 	return int(nowUnix() - hc.createdAt)
 }
 
